@@ -130,6 +130,10 @@ def specfn_decl(ex, sf):
         # trigger further unfolding (avoids matching loops); f(x) == f!lim(x) is triggered by f(x) only.
         flim = z3.Function(sf.name + "!lim", *sorts, sort_of(ctx, sf.ret)) if mode == "fuel" else f
     ctx.spec_cache[sf.name] = flim
+    if not sf.cases:
+        # uninterpreted spec function (no defining axiom): only congruence is known about it
+        ctx.spec_cache[sf.name] = f
+        return f
     vs = [z3.Const(f"{sf.name}!{nm}", s) for (nm, _), s in zip(sf.params, sorts)]
     st = engine.State()
     for (nm, ty), v in zip(sf.params, vs):
@@ -342,7 +346,16 @@ def sb_abs_us(ex, node, st):
     raise Unsupported("abs_us of a non-datetime value")
 
 
+def sb_same(ex, node, st):
+    """same(a, b): the two values are the same value (for floats: the same float, NaN included; not IEEE ==)"""
+    a, b = ex.eval(node.args[0], st), ex.eval(node.args[1], st)
+    if ex.isfloat(a) or ex.isfloat(b):
+        return ex.tofloat(a) == ex.tofloat(b)
+    return zint(a) == zint(b)
+
+
 SPEC_BUILTINS = {
+    "same": sb_same,
     "ORD": sb_ORD, "abs_us": sb_abs_us,
     "isnan": sb_isnan, "isinf": sb_isinf,
     "positions": sb_positions,
